@@ -2,7 +2,7 @@
 //! (30 layout objects x 124 keys x 512 modifier values x 2 modes = 3.8 M points each).
 
 use crate::common::*;
-use crate::props::events::{decoder_family, is_modifier_key, mods_paths};
+use crate::props::events::{decoder_family, decoder_family_with, is_modifier_key, mods_paths, EvAct};
 use crate::refs::layouts::*;
 use crate::replay::{Op, Replay};
 use crate::report::Ctx;
@@ -648,7 +648,15 @@ pub fn c10(ctx: &mut Ctx) -> (u64, String) {
     {
         let all: Vec<usize> = (0..N_LAYOUTS).collect();
         let deep = if ctx.thorough() { 2 } else { 1 };
-        decoder_family(ctx, "family:CapsLock through EventDecoder after short histories", &all, &|_l| ALL_KEYS.to_vec(), deep, |l, k, m, mode, out| {
+        // quick: every sequence of <= 2 Shift / CapsLock events between the two presses (the facts C10 is about);
+        // thorough: every sequence of <= 2 of all 29 intermediate actions
+        let inter: Vec<EvAct> = if ctx.thorough() {
+            crate::props::events::family_intermediates()
+        } else {
+            [KeyCode::LShift, KeyCode::RShift, KeyCode::CapsLock].iter().flat_map(|k| [EvAct::Key(*k, KeyState::Down), EvAct::Key(*k, KeyState::Up)]).collect()
+        };
+        let _ = deep;
+        decoder_family_with(ctx, "family:CapsLock through EventDecoder after short histories", &all, &|_l| ALL_KEYS.to_vec(), 2, inter, |l, k, m, mode, out| {
             if m & M_CAPS == 0 {
                 return None;
             }
